@@ -84,6 +84,28 @@ def _fp(o):
     return o.f if isinstance(o, _FP) else core.fv(float(o))
 
 
+class _RN:
+    """a real that may be NaN (Mode R with the NaN flag): comparisons are false on NaN, `!=` is true - as for IEEE doubles"""
+
+    def __init__(self, v, nan):
+        self.v, self.nan = v, nan
+
+    @staticmethod
+    def of(o):
+        return o if isinstance(o, _RN) else _RN(o if z3.is_expr(o) else z3.RealVal(o), z3.BoolVal(False))
+
+    def _c(self, o, f):
+        o = _RN.of(o)
+        return z3.And(z3.Not(self.nan), z3.Not(o.nan), f(self.v, o.v))
+
+    def __gt__(self, o): return self._c(o, lambda a, b: a > b)
+    def __ge__(self, o): return self._c(o, lambda a, b: a >= b)
+    def __lt__(self, o): return self._c(o, lambda a, b: a < b)
+    def __le__(self, o): return self._c(o, lambda a, b: a <= b)
+    def __eq__(self, o): return self._c(o, lambda a, b: a == b)
+    __hash__ = None
+
+
 def z_oracle(method, D, loaded, enabled, n=None, t=None, cmp=None, zero=None):
     """declarative selection predicates over the z3 reals (or _FP doubles) D[i]; -> (contributes[i] Bool, triggered[i] Bool, degree[i])"""
     N = len(D)
@@ -111,9 +133,13 @@ def z_oracle(method, D, loaded, enabled, n=None, t=None, cmp=None, zero=None):
             sel.append(z3.And(pos[i], count(better) < n))
     elif method == "Proportional":
         pos = [z3.And(L[i], D[i] > 0) for i in idx]
-        s = z3.Sum([z3.If(pos[i], D[i], 0) for i in idx])
+        val = lambda d: d.v if isinstance(d, _RN) else d      # noqa: E731
+        s = z3.Sum([z3.If(pos[i], val(D[i]), 0) for i in idx])
         sel = pos
-        deg = [z3.If(pos[i], D[i] / s, deg[i]) for i in idx]
+        if any(isinstance(d, _RN) for d in D):
+            deg = [_RN(z3.If(pos[i], val(D[i]) / s, val(deg[i])), z3.And(z3.Not(pos[i]), _RN.of(deg[i]).nan)) for i in idx]
+        else:
+            deg = [z3.If(pos[i], D[i] / s, deg[i]) for i in idx]
     elif method == "Threshold":
         sel = [z3.And(L[i], CMPS[cmp](D[i], t)) for i in idx]
     else:
@@ -150,17 +176,21 @@ def make_method(fl, method, nsym, tsym, cmp, reconfigure=False):
     return fl.Threshold(cmp, tsym)
 
 
-def ob_method(method, N, loaded, enabled, cmp=None, rounds=1, zero_disabled=False, label="", mode="R", reconfigure=False, prop=None):
+def ob_method(method, N, loaded, enabled, cmp=None, rounds=1, zero_disabled=False, label="", mode="R", reconfigure=False, prop=None, nan_degrees=False):
     """mode "F": degrees and thresholds are IEEE doubles (bit-exact comparisons and subtractions): an ordering key that is
     only equivalent over the reals (e.g. 1 - d instead of -d) shows up here"""
     def run(ob):
         fl = install()
         set_mode(mode)
         S.box_scalars = True
-        D = [[rvar(f"d{r}_{i}") for i in range(N)] for r in range(rounds)]
+        D = [[rvar(f"d{r}_{i}", special=nan_degrees) for i in range(N)] for r in range(rounds)]
         nsym = SymInt.var("n")
         t = rvar("t")
-        if mode == "R":
+        if mode == "R" and nan_degrees:
+            # a degree is a number in [0,1] or NaN (an input that is NaN gives NaN degrees): NaN is neither > 0 nor >= t
+            pre = [z3.And(z3.Not(ZB(x.pinf)), z3.Not(ZB(x.ninf)), z3.Or(ZB(x.nan), z3.And(x.v >= 0, x.v <= 1))) for row in D for x in row]
+            pre += [nsym.i >= 0, nsym.i <= N + 1, t.v >= 0, t.v <= 1]
+        elif mode == "R":
             pre = [unit(x) for row in D for x in row] + [nsym.i >= 0, nsym.i <= N + 1, t.v >= 0, t.v <= 1]
         else:
             pre = [unit(x) for row in D for x in row] + [nsym.i >= 0, nsym.i <= N + 1, unit(t)]
@@ -197,7 +227,7 @@ def ob_method(method, N, loaded, enabled, cmp=None, rounds=1, zero_disabled=Fals
                               f"    con, trig, deg = oracle({method!r}, D[r], loaded, enabled, n={v['n']}, t={lit(v['t'])}, cmp={cmp!r})",
                               "    for i in range(N):",
                               "        acts = [a for a in O.fuzzy.terms if a.term.name == 'c%d' % i]",
-                              "        ok = len(acts) == (1 if con[i] else 0) and bool(rules[i].triggered) == trig[i] and same(rules[i].activation_degree, deg[i], 1e-9) and all(same(a.degree, deg[i], 1e-9) for a in acts)",
+                              "        ok = len(acts) == (1 if con[i] else 0) and bool(rules[i].triggered) == trig[i] and same(rules[i].activation_degree, deg[i], 1e-9) and all(same(a.degree, 0.0 if deg[i] != deg[i] else deg[i], 1e-9) for a in acts)      # a contribution carries the sanitised degree (NaN -> 0, C07)",
                               "        if not ok: bad = 'round %d rule %d: %d contributions, triggered=%r, degree=%r; definition: contributes=%r triggered=%r degree=%r' % (r, i, len(acts), bool(rules[i].triggered), rules[i].activation_degree, con[i], trig[i], deg[i]); break",
                               "    if bad: break",
                               f"verdict(bad is not None, '{method} D=%r n={v['n']} t=%r: %s' % (D, {lit(v['t'])}, bad))"])
@@ -241,7 +271,11 @@ def ob_method(method, N, loaded, enabled, cmp=None, rounds=1, zero_disabled=Fals
                 ob.unexpected(pre, p, label, ins, rp)
                 continue
             for r in range(rounds):
-                if mode == "R":
+                if mode == "R" and nan_degrees:
+                    con, trig, deg = z_oracle(method, [_RN(x.v, ZB(x.nan)) for x in D[r]], loaded, enabled, n=nsym.i, t=_RN.of(t.v), cmp=cmp, zero=_RN.of(0))
+                    deg = [_RN.of(d) for d in deg]
+                    is_deg = lambda x, d: z3.Or(z3.And(d.nan, ZB(x.nan)), z3.And(z3.Not(d.nan), ZB(x.fin()), x.v == d.v))   # noqa: E731
+                elif mode == "R":
                     con, trig, deg = z_oracle(method, [x.v for x in D[r]], loaded, enabled, n=nsym.i, t=t.v, cmp=cmp)
                     is_deg = lambda x, d: z3.And(ZB(x.fin()), x.v == d)   # noqa: E731
                 else:
@@ -261,7 +295,8 @@ def ob_method(method, N, loaded, enabled, cmp=None, rounds=1, zero_disabled=Fals
                         claims.append(z3.BoolVal(False))
                     for a in acts:
                         av = tf(a)
-                        claims.append(is_deg(av, deg[i]))
+                        # a contribution carries the sanitised degree (NaN -> 0, C07)
+                        claims.append(is_deg(av, _RN(z3.If(deg[i].nan, z3.RealVal(0), deg[i].v), z3.BoolVal(False)) if isinstance(deg[i], _RN) else deg[i]))
                 claims.append(z3.BoolVal(total == sum(len(res[i][2]) for i in range(N))))
                 ob.prove(pre, p, z3.And(*claims), f"{label}/round{r}", ins, rp)
             last = tf(p.result[-1][0][1])
@@ -503,6 +538,11 @@ def obligations(tier, seed):
                 obs.append((nm, ob_method(method, N, (True,) * N, (True,) * N, cmp, rounds=2, label=nm)))
             nm = f"{tag}/batch"
             obs.append((nm, ob_batch(method, cmp, label=nm)))
+            # degrees that may be NaN (a NaN input): NaN is neither positive nor above a threshold, does not enter a sum, takes no slot
+            if method != "Threshold" or cmp in (">", "!=", "<="):
+                for N in ((2, 3) if method != "General" else (2,)):
+                    nm = f"{tag}/N{N}/nan-degrees"
+                    obs.append((nm, ob_method(method, N, (True,) * N, (True,) * N, cmp, label=nm, nan_degrees=True)))
             if method not in ("General", "Proportional"):
                 nm = f"{tag}/N3/reconfigured"
                 obs.append((nm, ob_method(method, 3, (True,) * 3, (True,) * 3, cmp, label=nm, reconfigure=True)))
